@@ -120,7 +120,7 @@ Definition step (c : cfg) (g : gen) (o : op) : gen * option tick_out :=
   match o with
   | Bind k true =>
       match new_log (c_size c) with
-      | Some lg => (mk_gen (ins_key k (g_keys g)) (upd (g_logs g) k (Some lg)) (g_cnts g), None)
+      | Some lg => (mk_gen (ins_key k (g_keys g)) (upd (g_logs g) k (Some lg)) (upd (g_cnts g) k None), None)
       | None => (g, None)
       end
   | Bind k false => (g, None)
